@@ -10,7 +10,7 @@ C18 line protocol.  One line = one whole history.
 
 ops:  w<hex> write | r<n> read(n) | ra read() | rl readline() | rL<n> readline(n) | rs readlines()
       sk<n> seek(n) | sc<n> seek(n, SEEK_CUR) | se<n> seek(∓n, SEEK_END) | t tell() | g getvalue()
-      l len(f) | n next(f) | it list(f) | dr [x for x in f]
+      l len(f) | n next(f) | it list(f) | dr [x for x in f] | ro f.rollover()
 mops: r<n> read(n) | ra read() | s seek(0)
 Payloads are hex (bytes, or the UTF-8 of a text), `-` = empty.
 
@@ -44,6 +44,7 @@ def parseOp {α : Type} (payload : String → Option (List α)) (tok : String) :
   else if tok = "n" then some .next
   else if tok = "it" then some .list
   else if tok = "dr" then some .drain
+  else if tok = "ro" then some .rollover
   else if tok.startsWith "rL" then (nat 2).map .readlineN
   else if tok.startsWith "sk" then (nat 2).map .seek
   else if tok.startsWith "sc" then (nat 2).map .seekCur
